@@ -67,3 +67,90 @@ func c17scrapeChild(args []string) {
 	time.Sleep(150 * time.Millisecond)
 	fmt.Println("scrape survived")
 }
+
+func init() { children["c17close"] = c17closeChild }
+
+// c17closeChild: deterministic witness of "scrape racing with the close of the last tunnel of a
+// client": the stubbed clock, when read by the close, gives a scrape the chance to run (and, if the
+// collector's lock is not held, to complete and restart the client's period at a later time) before
+// it returns the time it was asked at. Whatever the order, the outcome must be one that some
+// sequential order of close and scrape gives: no panic, between 10 and 20 s reported in all, and
+// nothing more at later scrapes.
+func c17closeChild(args []string) {
+	var mu sync.Mutex
+	clock := time.Unix(1_700_000_000, 0)
+	armed, fired := false, false
+	smReal, err := oprom.NewServiceMetrics(nil)
+	if err != nil {
+		panic(err)
+	}
+	reg := prometheus.NewRegistry()
+	reg.MustRegister(smReal)
+	total := func() float64 {
+		mfs, err := reg.Gather()
+		if err != nil {
+			fmt.Println("gather error:", err)
+			return -1
+		}
+		s := 0.0
+		for _, mf := range mfs {
+			if mf.GetName() == "tunnel_time_seconds" {
+				for _, m := range mf.GetMetric() {
+					s += m.GetCounter().GetValue()
+				}
+			}
+		}
+		return s
+	}
+	oprom.VerifSetNow(func() time.Time {
+		mu.Lock()
+		doFire := armed && !fired
+		if doFire {
+			fired = true
+		}
+		t := clock
+		mu.Unlock()
+		if doFire {
+			done := make(chan struct{})
+			go func() {
+				mu.Lock()
+				clock = clock.Add(10 * time.Second)
+				mu.Unlock()
+				total() // a scrape, 10 s later
+				close(done)
+			}()
+			select {
+			case <-done:
+			case <-time.After(150 * time.Millisecond): // the close holds the collector's lock: the scrape waits
+			}
+		}
+		return t
+	})
+	c := smReal.AddUDPNatEntry(&net.UDPAddr{IP: net.IPv4(203, 0, 113, 8), Port: 4001}, "key-close")
+	mu.Lock()
+	clock = clock.Add(10 * time.Second)
+	armed = true
+	mu.Unlock()
+	func() {
+		defer func() {
+			if r := recover(); r != nil {
+				fmt.Println("close panicked:", r)
+			}
+		}()
+		c.RemoveNatEntry()
+	}()
+	time.Sleep(250 * time.Millisecond)
+	t1 := total()
+	mu.Lock()
+	clock = clock.Add(10 * time.Second)
+	mu.Unlock()
+	t2 := total()
+	mu.Lock()
+	clock = clock.Add(10 * time.Second)
+	mu.Unlock()
+	t3 := total()
+	fmt.Printf("totals %.0f %.0f %.0f\n", t1, t2, t3)
+	if t1 >= 10 && t1 <= 20 && t2 == t1 && t3 == t1 {
+		fmt.Println("close survived")
+	}
+}
